@@ -223,6 +223,10 @@ def run(ctx: Ctx, rep: Report) -> None:
         if meth is None:
             rep.undecided("C16-R5", f"{wrapper.module.path} (PyWrapper)", f"wrapper has {name}", "missing")
             continue
+        from .walkeval import eval_wrapper_table
+
+        if eval_wrapper_table(ctx, rep, wrapper, name, "C16-R5"):
+            continue  # decided by evaluation of the conversion on small tables
         view = ctx.inlined(meth)  # the conversion may live in a module helper (_pythonize_rows)
         vdefs = ctx.defs(view)
 
